@@ -122,6 +122,36 @@ def extra(report, env):
                 if len(fails) < 5:
                     fails.append({'formula': f, 'history': seq[:pos], 'detail': 'after %r on the same parser %r raises %r, on a fresh parser %r' % (seq[:pos], f, lg, fresh_log[f])})
                 break
+    # only some kinds of listener registered: still one event per reference of THAT kind and nothing else - a range nobody listens for
+    # raises no cell events, an unknown name raises its one variable event and is #NAME?
+    from pyvc import e2e as _e
+    for kinds in (('callCellValue',), ('callVariable',), ('callCellValue', 'callVariable'), ('callRangeValue',), ('callFunction',)):
+        q = _e.new_parser()
+        lg = []
+        if 'callCellValue' in kinds:
+            q.on('callCellValue', lambda cell, st: lg.append(('cell', cell.label)))
+        if 'callRangeValue' in kinds:
+            q.on('callRangeValue', lambda a, b, st: lg.append(('range', a.label, b.label)))
+        if 'callVariable' in kinds:
+            q.on('callVariable', lambda name, st: lg.append(('var', name)))
+        if 'callFunction' in kinds:
+            q.on('callFunction', lambda name, args, st: lg.append(('fn', name)))
+        for text, refs, want in (('SUM(A1:B2)', [('range', 'A1', 'B2'), ('fn', 'SUM')], {'result': 0, 'error': None}),
+                                 ('MAX(A1:C3)+A1', [('range', 'A1', 'C3'), ('fn', 'MAX'), ('cell', 'A1')], 'any'),
+                                 ('A1:B2', [('range', 'A1', 'B2')], {'result': None, 'error': None}),
+                                 ('rate', [('var', 'rate')], {'result': None, 'error': '#NAME?'}),
+                                 ('Rate+1', [('var', 'Rate')], {'result': None, 'error': '#NAME?'}),
+                                 ('true', [('var', 'true')], {'result': None, 'error': '#NAME?'}),
+                                 ('TRUE', [('var', 'TRUE')], {'result': True, 'error': None}),
+                                 ('SUM(x1y,2)', None, None)):
+            if refs is None:
+                continue
+            del lg[:]
+            r = q.parse(text)
+            cases += 1
+            exp = [e for e in refs if {'cell': 'callCellValue', 'range': 'callRangeValue', 'var': 'callVariable', 'fn': 'callFunction'}[e[0]] in kinds]
+            if (lg != exp or (want != 'any' and r != want)) and len(fails) < 5:
+                fails.append({'formula': text, 'detail': 'only %r registered: events %r (expected %r), outcome %r (expected %r)' % (kinds, lg, exp, r, want)})
     # reference walk: seeded formulas in which the same variable / cell / range / function occurs several times; every occurrence
     # raises its own event (post-order, left to right) and takes the value its own setter was given
     for _ in range(300 if env['tier'] == 'quick' else 5000):
@@ -137,7 +167,7 @@ def extra(report, env):
         cases += 1
         if bad and len(fails) < 5:
             fails.append({'formula': text, 'walk': tree, 'silent': silent, 'detail': 'listeners silent on events %r: %s' % (silent, bad)})
-    bounded(report, 'C10.events', 'event logs after seeded histories of 2..6 references on one parser (reversed-corner ranges, shared corners) against a fresh parser, listeners re-entering the same parser while a cell is being resolved (3 orders of hand-over x with/without a second listener x 8 formulas), 7 columns x 5 rows x 4 $-patterns, 18 ranges (all corner orders), 4 ordering formulas, 9 setter sequences x 4 events, seeded formulas with '
+    bounded(report, 'C10.events', '5 subsets of listener kinds x 7 formulas (only the events of registered kinds, a range nobody answers stays blank, an unknown name is #NAME? after its one event), event logs after seeded histories of 2..6 references on one parser (reversed-corner ranges, shared corners) against a fresh parser, listeners re-entering the same parser while a cell is being resolved (3 orders of hand-over x with/without a second listener x 8 formulas), 7 columns x 5 rows x 4 $-patterns, 18 ranges (all corner orders), 4 ordering formulas, 9 setter sequences x 4 events, seeded formulas with '
             'repeated references (<= 6 atoms from 2 variables, 2 cells, 1 range, SUM / MAX calls) against a reference walk: one event per occurrence, '
             'each occurrence valued by its own setter, and again with listeners silent on a random 40% of the events (blank / the variable own value)', cases, fails)
 
